@@ -19,7 +19,8 @@ RULE = ("seeded models with 1-3 delays on 1-3 state variables written as past(x,
         "reference solution; non-trivial = >= 1 delayed term on a variable that is not the first state variable or >= 2 "
         "delays; distinct = distinct (spec, mode) hash")
 DECIDING = ['probe_points_fixed', 'probe_points_adaptive', 'euler_rows_compared', 'scipy_rows_compared', 'delays_on_nonfirst_state',
-            'multi_delay_models', 'tminus_syntax', 'past_syntax', 'vectorized_models', 'long_history_runs', 'complex_history_runs']
+            'multi_delay_models', 'tminus_syntax', 'past_syntax', 'vectorized_models', 'long_history_runs', 'complex_history_runs',
+            'runs_with_coarser_sampling']
 ASSUMPTIONS = ['delayed variables are state variables of the operator that uses them', 'constant pre-history = declared initial state',
                'adaptive runs: PyRates records accepted steps only, its linear interpolation error is tolerated (2e-3 relative)']
 CASE_TIMEOUT = 300
@@ -406,13 +407,18 @@ def run_case(case, ctx):
             steps = rnd.choice([40, 60])
             T = steps * dt
             kw = {}
+            # the output may be sampled more coarsely than the integration (the history must still hold every step)
+            m_s = rnd.choice([1, 2, 5, 10, 20]) if mode in ('euler', 'heun') else 1
+            if m_s > 1:
+                kw['dts'] = m_s * dt
+                mech['runs_with_coarser_sampling'] = 1
             try:
                 df = observe.run_model(spec, T=T, dt=dt, solver=mode, outputs=outputs, vectorize=vec, **kw)
             except Exception as e:
                 import traceback
                 raise observe.Mismatch(f"loud: run raised {type(e).__name__}: {e} :: {traceback.format_exc()[-500:]}")
             if mode in ('euler', 'heun'):
-                exp = ref_fixed(ref, steps, dt, keys, heun=(mode == 'heun'))
+                exp = ref_fixed(ref, steps, dt, keys, heun=(mode == 'heun'))[::m_s]
                 msg = observe.compare_traj(df.values, exp, rtol=1e-7)
                 cnt = 'euler_rows_compared'
             else:
